@@ -50,7 +50,9 @@ def common_args(ped, ch):
 
 
 def setup_extra():
-    from .. import cliflow
+    from .. import cliflow, handoff
+
+    handoff.ped_large_alleles(Result(), {})
 
     for part in (("asm", 0), ("hand", 1)):
         cliflow.pedigree_flow(Result(), {}, 0, part)
@@ -107,6 +109,7 @@ def job_orch(job):
     payload = {"kind": "job", "job": job}
     if part == "fit":
         handoff.ped_fit(r, payload)
+        handoff.ped_large_alleles(r, payload)
     else:
         {"sampler": handoff.ped_sampler, "compound": handoff.ped_compound, "allele": handoff.ped_allele}[part](r, payload, name)
     r.sample({"orchestration": part, "pedigree": name}, cap=1)
